@@ -380,7 +380,7 @@ def check_traceback(case, ev=None):
 
 # ---- warnings --------------------------------------------------------------
 WARNERS = ["expr-escape", "block-escape", "module-escape", "is-literal", "module-warn", "expr-literal", "block-literal", "elif-escape",
-           "ns-second-attr-escape"]
+           "ns-second-attr-escape", "module-foreign-unknown"]
 
 
 def warner(kind, k, tag):
@@ -398,6 +398,10 @@ def warner(kind, k, tag):
     if kind == "ns-second-attr-escape":
         return ('<%namespace name="nw1" module="os.path"/>\n' + "y\n" * k + '<%%namespace name="nw2" file="${\'\\%s\' and \'/nowhere.html\'}"/>\n' % tag,
                 1 + k, r"invalid escape sequence")
+    if kind == "module-foreign-unknown":
+        # module-level code relays a warning of some other parser ("<unknown>" is also the name mako gives the expressions
+        # it parses on their own): it is not one of those, and is shown as it was raised
+        return ("<%!\n    import warnings\n    warnings.warn_explicit('planted-foreign-" + tag + "', UserWarning, '<unknown>', 7)\n%>\n", 2, r"planted-foreign-")
     if kind == "elif-escape":
         return '% if cs == "a":\nx\n' + "y\n" * k + '%% elif cs == "\\%s":\nz\n%% endif\n' % tag, 2 + k, r"invalid escape sequence"
     if kind == "is-literal":
@@ -424,6 +428,8 @@ def check_warning(case, ev=None):
     eline = pre.count("\n") + 1 + wline
     uri = "/c12w_%d.html" % k
     path = subject["path"]
+    if subject.get("prefail") and path == "put_string" and k % 2:
+        uri = "c12w_%d" % k  # a URI made of word characters only: it is its own module id
     with core.TempDir() as d:
         fn = os.path.join(d, "w%d.mako" % k)
         with open(fn, "wb") as fh:
@@ -509,7 +515,7 @@ def check_warning(case, ev=None):
     mine = [(w.filename, w.lineno, str(w.message)) for w in rec if re.search(pat, str(w.message))]
     tag = "\n--- %s (action=%s, path=%s, expected line %d) ---\n%s\nrecorded: %r" % (efile, action, path, eline, src, [(w.filename, w.lineno, str(w.message)) for w in rec])
     if action == "error":
-        if wkind == "module-warn":
+        if wkind in ("module-warn", "module-foreign-unknown"):
             if not isinstance(err, Warning):
                 raise Failure(case, "under the error filter warnings.warn in module code should raise the warning; got %r" % (err,) + tag, "warn:error-action")
         else:
@@ -524,6 +530,8 @@ def check_warning(case, ev=None):
             raise Failure(case, "compile raised %r" % (err,) + tag, "warn:raised")
         if len(mine) != 1:
             raise Failure(case, "expected exactly one warning record, got %d" % len(mine) + tag, "warn:count:%s:%s" % (wkind, action))
+        if wkind == "module-foreign-unknown":
+            efile, eline = "<unknown>", 7
         if (mine[0][0], mine[0][1]) != (efile, eline):
             raise Failure(case, "warning shown at %r, expected (%r, %d)" % (mine[0][:2], efile, eline) + tag, "warn:location:%s:%s" % (wkind, path))
     if ev is not None:
